@@ -7,6 +7,7 @@ events:
   a b|t                                  accept a binary / text connection                       → ok
   q <c> L|U <w|p|v> <tok> <flag> <db> <lockid> <key> <tflag> <timeout> <eflag> <expried> <count> <rcount> <data> <replica>
                                          LOCK / UNLOCK (text: w = LOCK/UNLOCK, p = PUSH, v = SET); replica = n | m | <locked>[:<data>]
+  q <c> WL|WU <tok> <flag> <db> <lockid> <key> <tflag> <timeout> <eflag> <expried> <count> <rcount> <data>   a will command
   q <c> I <tok> <cid>                    INIT
   q <c> C <tok> 0|1                      CALL (1 = LIST_LOCK / LIST_LOCKED / LIST_WAIT)
   q <c> O                                any other command
@@ -95,6 +96,13 @@ def parseTransEvent (ts : List String) : Option Event :=
         timeoutFlag := ← tf.toNat?, timeout := ← t.toNat?, expriedFlag := ← ef.toNat?, expried := ← e.toNat?,
         count := ← cnt.toNat?, rcount := ← rc.toNat?, data := ← tParseData d }
     pure (.request (← c.toNat?) false (.lk ct (← tParseMode m) cmd (← tParseReplica rep)))
+  | ["q", c, k, tok, flag, db, lid, key, tf, t, ef, e, cnt, rc, d] => do
+    let ct ← (if k == "WL" then some CType.lock else if k == "WU" then some CType.unlock else none)
+    let cmd : LockCmd :=
+      { rid := ← tok.toNat?, flag := ← flag.toNat?, dbId := ← db.toNat?, lockId := ← tParseId lid, lockKey := ← tParseId key,
+        timeoutFlag := ← tf.toNat?, timeout := ← t.toNat?, expriedFlag := ← ef.toNat?, expried := ← e.toNat?,
+        count := ← cnt.toNat?, rcount := ← rc.toNat?, data := ← tParseData d }
+    pure (.request (← c.toNat?) false (.will ct cmd))
   | ["q", c, "I", tok, cid] => do pure (.request (← c.toNat?) false (.init (← tok.toNat?) (← tParseId cid)))
   | ["q", c, "C", tok, fw] => do pure (.request (← c.toNat?) false (.call (← tok.toNat?) (fw == "1")))
   | ["q", c, "O"] => do pure (.request (← c.toNat?) false .other)
